@@ -12,7 +12,9 @@ Open Scope N_scope.
 (** For every terminal size W >= 1, H >= 1, every initial single-bar configuration [s0] (any
     template, message, prefix, position, length, finish behaviour, limiter states), every terminal
     [t0] in which earlier output [pre] has been written and whose cursor is on a fresh line, every
-    timed op history [h] over the C01 alphabet (suspend closures write non-empty lines), under the
+    timed op history [h] over the C01 alphabet outside ONE excluded situation ([hist_ok]: no suspend
+    closure writes an EMPTY FIRST line while no frame is on the screen and the last call was a
+    write_str - open finding 'empty-line-after-text-only-draw-swallowed', refuted below), under the
     proviso [Fits] (the bar rows of every PAINTED frame fit the height):
     executing all emitted TermLike calls on the terminal gives exactly
         pre ++ wrap W log ++ wrap W frame      (as rows of W cells; only blank rows below)
@@ -22,9 +24,9 @@ Open Scope N_scope.
 Theorem C01_screen :
   forall (W H : N) (pre : list (list N)) (s0 : sys) (t0 : term) (h : list (N * op)),
   1 <= W -> 1 <= H ->
-  sb_initial s0 -> ready (N.to_nat W) (N.to_nat H) pre t0 -> hist_ok h -> Fits W H s0 h ->
-  let g := snd (fst (sb_run W H (s0, ghost0, t0) h)) in
-  let t := snd (sb_run W H (s0, ghost0, t0) h) in
+  sb_initial s0 -> ready (N.to_nat W) (N.to_nat H) pre t0 -> hist_ok W H s0 (ghost_for t0) h -> Fits W H s0 h ->
+  let g := snd (fst (sb_run W H (s0, ghost_for t0, t0) h)) in
+  let t := snd (sb_run W H (s0, ghost_for t0, t0) h) in
   (exists k, screen (N.to_nat W) t
              = map (pad (N.to_nat W)) (expected_rows W pre g) ++ repeat (repeat SP (N.to_nat W)) k)
   /\ next_cell (N.to_nat W) t = (List.length (expected_rows W pre g), 0%nat).
@@ -36,9 +38,9 @@ Theorem C01_screen_after_every_op :
   forall (W H : N) (pre : list (list N)) (s0 : sys) (t0 : term) (h1 h2 : list (N * op)),
   1 <= W -> 1 <= H ->
   sb_initial s0 -> ready (N.to_nat W) (N.to_nat H) pre t0 ->
-  hist_ok (h1 ++ h2) -> Fits W H s0 (h1 ++ h2) ->
-  let g := snd (fst (sb_run W H (s0, ghost0, t0) h1)) in
-  let t := snd (sb_run W H (s0, ghost0, t0) h1) in
+  hist_ok W H s0 (ghost_for t0) (h1 ++ h2) -> Fits W H s0 (h1 ++ h2) ->
+  let g := snd (fst (sb_run W H (s0, ghost_for t0, t0) h1)) in
+  let t := snd (sb_run W H (s0, ghost_for t0, t0) h1) in
   (exists k, screen (N.to_nat W) t
              = map (pad (N.to_nat W)) (expected_rows W pre g) ++ repeat (repeat SP (N.to_nat W)) k)
   /\ next_cell (N.to_nat W) t = (List.length (expected_rows W pre g), 0%nat).
@@ -70,11 +72,11 @@ Definition ex_h : list (N * op) :=
    (7000000000, OFinish 0 FAndClear)].
 
 Example C01_hypotheses_satisfiable :
-  sb_initial ex_s0 /\ hist_ok ex_h /\ Fits 5 10 ex_s0 ex_h
+  sb_initial ex_s0 /\ hist_ok 5 10 ex_s0 ghost0 ex_h /\ Fits 5 10 ex_s0 ex_h
   /\ ready 5 10 [t "$ run"] (run_ops 5 10 term_init [TLine (t "$ run")]).
 Proof.
   split; [eexists; eexists; repeat split|].
-  split; [repeat constructor|]. split; [vm_compute; reflexivity|].
+  split; [vm_compute; reflexivity|]. split; [vm_compute; reflexivity|].
   exact (ready_start 5 10 [t "$ run"] 0 1 ltac:(lia)).
 Qed.
 
@@ -96,21 +98,45 @@ Example C01_example_at_the_end :
   /\ next_cell 5 (snd st) = (11%nat, 0%nat).
 Proof. vm_compute. repeat split. Qed.
 
-(** why suspend closures must write non-empty lines ([suspend_ok]): terminal semantics, not
-    indicatif's doing - an EMPTY line written by foreign code while the cursor is wrap-pending at
-    the right edge only resolves the pending wrap; the equation then has one row too many *)
-Example C01_suspend_empty_line_absorbed :
-  let h := [(1000000000, OFinish 0 FAndClear); (2000000000, OPrintln 0 (t "hello"));
-            (3000000000, OSuspend 0 [[]])] in
-  let st := sb_run 5 10 (ex_s0, ghost0, term_init) h in
-  ~ hist_ok h /\ Fits 5 10 ex_s0 h
+(** The excluded situation is a genuine deviation (open finding, harness class
+    'empty-line-after-text-only-draw-swallowed', reproduced on the real code by bins c01/c03):
+    finish_and_clear; println "hello" paints a text line only and leaves the cursor wrap-pending at
+    the right edge (last_line_count = 0); the EMPTY first line of the suspend closure then only
+    resolves the pending wrap: it gets no row of its own (2 log rows demanded, 1 on the screen, the
+    next output starts where the empty row should be). *)
+Definition swallow_h : list (N * op) :=
+  [(1000000000, OFinish 0 FAndClear); (2000000000, OPrintln 0 (t "hello"));
+   (3000000000, OSuspend 0 [[]])].
+
+Theorem C01_empty_line_swallowed_refuted :
+  let st := sb_run 5 10 (ex_s0, ghost0, term_init) swallow_h in
+  sb_initial ex_s0 /\ ready 5 10 [] term_init /\ Fits 5 10 ex_s0 swallow_h
+  /\ hist_okb 5 10 ex_s0 ghost0 (firstn 2 swallow_h) = true     (* fine up to the suspend ... *)
+  /\ hist_okb 5 10 ex_s0 ghost0 swallow_h = false               (* ... which is the excluded situation *)
   /\ g_log (snd (fst st)) = [t "hello"; []]
-  /\ List.length (expected_rows 5 [] (snd (fst st))) = 2%nat
-  /\ screen 5 (snd st) = map (pad 5) [t "hello"; t ""]
-  /\ next_cell 5 (snd st) = (1%nat, 0%nat).
+  /\ List.length (expected_rows 5 [] (snd (fst st))) = 2%nat    (* the property demands two rows *)
+  /\ screen 5 (snd st) = map (pad 5) [t "hello"; t ""]          (* "hello" and the blank cursor row *)
+  /\ next_cell 5 (snd st) = (1%nat, 0%nat).                     (* the next output lands on row 1, not 2 *)
 Proof.
-  split.
-  - intros Hok. inversion Hok as [|x l Hx Hl]; subst. inversion Hl as [|x2 l2 Hx2 Hl2]; subst.
-    inversion Hl2 as [|x3 l3 [_ Hx3] Hl3]; subst. discriminate Hx3.
-  - vm_compute. repeat split.
+  cbv zeta. split; [eexists; eexists; repeat split|].
+  split; [exact (ready_start 5 10 [] 0 0 (Nat.le_0_l _))|].
+  vm_compute. repeat split.
 Qed.
+Print Assumptions C01_empty_line_swallowed_refuted.
+
+(** ... and it is the ONLY excluded closure output: an empty first line while a frame is visible
+    (the clear of suspend leaves the cursor at column 0), empty lines after the first, an empty
+    first line on a fresh terminal are inside [hist_ok] and get their rows. *)
+Example C01_empty_closure_lines_covered :
+  let h := [(1000000000, OSuspend 0 [[]]);                      (* fresh terminal: column 0 *)
+            (2000000000, OSetMsg 0 (t "ab"));
+            (3000000000, OSuspend 0 [[]; t "x"; []]);           (* frame visible *)
+            (4000000000, OFinish 0 FAndClear);
+            (5000000000, OPrintln 0 (t "hello"));
+            (6000000000, OSuspend 0 [t "y"; []])] in            (* empty line, but not the first *)
+  let st := sb_run 5 10 (ex_s0, ghost0, term_init) h in
+  hist_ok 5 10 ex_s0 ghost0 h /\ Fits 5 10 ex_s0 h
+  /\ g_log (snd (fst st)) = [[]; []; t "x"; []; t "hello"; t "y"; []]
+  /\ screen 5 (snd st) = map (pad 5) [t ""; t ""; t "x"; t ""; t "hello"; t "y"; t ""; t ""]
+  /\ next_cell 5 (snd st) = (7%nat, 0%nat).
+Proof. vm_compute. repeat split. Qed.
